@@ -97,6 +97,10 @@ func init() {
 			v := in.concretize(t, "verif_concrete", in.cfg.ConcLimit)
 			return in.constLike(t, v)
 		},
+		"verif_alloc_limit": func(in *Interp, fr *frame, a []Value) Value {
+			in.allocLimit = in.concInt(a[0].(*Term), "alloc_limit")
+			return nil
+		},
 		"verif_native":      func(in *Interp, fr *frame, a []Value) Value { return in.tc.tFalse },
 		"verif_is_symbolic": func(in *Interp, fr *frame, a []Value) Value { return in.tc.tTrue },
 		"verif_timers": func(in *Interp, fr *frame, a []Value) Value {
@@ -209,6 +213,13 @@ func (in *Interp) nondet(kind string, w int) *Term {
 }
 
 func (in *Interp) assume(c *Term) {
+	c = in.simp(c)
+	defer func() {
+		if r := recover(); r != nil {
+			panic(r)
+		}
+		in.learnFromCond(c, true)
+	}()
 	if c.IsTrue() {
 		return
 	}
@@ -970,7 +981,10 @@ func (in *Interp) toNative(fr *frame, v Value) (interface{}, bool) {
 			return s, ok
 		}
 		// error / Stringer methods
-		if m := in.prog.LookupMethod(v.t, nil, "Error"); m != nil && m.Signature.Params().Len() == 0 {
+		if !in.hasMethod(v.t, "Error") && !in.hasMethod(v.t, "String") {
+			return in.toNativeT(fr, v.v, v.t)
+		}
+		if m := in.lookupMethodSafe(v.t, "Error"); m != nil && m.Signature.Params().Len() == 0 {
 			r := in.callSSA(fr, m, []Value{v.v}, nil)
 			s, ok := r.(*StrV).Concrete()
 			if !ok {
@@ -978,7 +992,7 @@ func (in *Interp) toNative(fr *frame, v Value) (interface{}, bool) {
 			}
 			return fmt.Errorf("%s", s), true
 		}
-		if m := in.prog.LookupMethod(v.t, nil, "String"); m != nil && m.Signature.Params().Len() == 0 && m.Signature.Results().Len() == 1 {
+		if m := in.lookupMethodSafe(v.t, "String"); m != nil && m.Signature.Params().Len() == 0 && m.Signature.Results().Len() == 1 {
 			r := in.callSSA(fr, m, []Value{v.v}, nil)
 			if rs, ok := r.(*StrV); ok {
 				s, ok := rs.Concrete()
@@ -1112,7 +1126,7 @@ func (in *Interp) errorsIs(fr *frame, err, target Value, depth int) bool {
 	}
 	// Is method
 	if e.t != nativeErrType && e.t != runtimeErrNamed {
-		if m := in.prog.LookupMethod(e.t, nil, "Is"); m != nil {
+		if m := in.lookupMethodSafe(e.t, "Is"); m != nil {
 			r := in.callSSA(fr, m, []Value{e.v, target}, nil).(*Term)
 			if in.branch(r) {
 				return true
@@ -1131,7 +1145,7 @@ func (in *Interp) errorsIs(fr *frame, err, target Value, depth int) bool {
 	if e.t == runtimeErrNamed {
 		return false
 	}
-	if m := in.prog.LookupMethod(e.t, nil, "Unwrap"); m != nil {
+	if m := in.lookupMethodSafe(e.t, "Unwrap"); m != nil {
 		r := in.callSSA(fr, m, []Value{e.v}, nil)
 		switch r := r.(type) {
 		case Iface:
@@ -1173,7 +1187,7 @@ func (in *Interp) errorsAs(fr *frame, err, target Value) bool {
 		if e.t == runtimeErrNamed {
 			return false
 		}
-		m := in.prog.LookupMethod(e.t, nil, "Unwrap")
+		m := in.lookupMethodSafe(e.t, "Unwrap")
 		if m == nil {
 			return false
 		}
@@ -1295,3 +1309,23 @@ func (in *Interp) nativeMethod(fr *frame, name string, args []Value) Value {
 }
 
 var nativeMethods = map[string]intrinsic{}
+
+func (in *Interp) hasMethod(t types.Type, name string) bool {
+	ms := in.prog.MethodSets.MethodSet(t)
+	for i := 0; i < ms.Len(); i++ {
+		if ms.At(i).Obj().Name() == name {
+			return true
+		}
+	}
+	return false
+}
+
+func (in *Interp) lookupMethodSafe(t types.Type, name string) *ssa.Function {
+	ms := in.prog.MethodSets.MethodSet(t)
+	for i := 0; i < ms.Len(); i++ {
+		if ms.At(i).Obj().Name() == name {
+			return in.prog.MethodValue(ms.At(i))
+		}
+	}
+	return nil
+}
